@@ -405,15 +405,21 @@ def load_known():
     return json.loads(p.read_text())
 
 
+def out_root():
+    """where evidence/ and replays/ are written: /verif, unless VERIF_OUT redirects them (used when the
+    checks are pointed at a deliberately modified copy of the repository, see harness/seedrun.py)"""
+    return Path(os.environ.get("VERIF_OUT") or VERIF)
+
+
 def write_evidence(prop, ev):
-    d = VERIF / "evidence"
-    d.mkdir(exist_ok=True)
+    d = out_root() / "evidence"
+    d.mkdir(parents=True, exist_ok=True)
     (d / (prop.ID + ".json")).write_text(json.dumps(ev, indent=1, default=str) + "\n")
 
 
 def write_replay(prop, payload):
-    d = VERIF / "replays"
-    d.mkdir(exist_ok=True)
+    d = out_root() / "replays"
+    d.mkdir(parents=True, exist_ok=True)
     h = hashlib.sha1(json.dumps(payload, sort_keys=True, default=str).encode()).hexdigest()[:10]
     p = d / ("%s_%s.json" % (prop.ID, h))
     p.write_text(json.dumps(payload, indent=1, default=str) + "\n")
